@@ -322,6 +322,19 @@ func corrC10(c *corrCtx) {
 				}
 			}
 		}
+		// larger images (more rows than any worker count, rows wider than any plausible block size), the
+		// concrete fast paths and one generic pair
+		if rep == 0 || c.thorough() {
+			big := []geom{{130, 70}, {1, 300}, {300, 1}, {257, 3}, {1030, 2}, {2, 1030}, {4100, 1}}
+			for bi, pair := range [][2]string{{"rgba64", "rgba64"}, {"rgba64", "rgba"}, {"nrgba", "rgba64"}, {"rgba", "rgba"}, {"ycbcr420", "nrgba"}} {
+				g := big[(bi+rep)%len(big)]
+				sOrigin := image.Pt(r.intn(21)-10, r.intn(21)-10)
+				sb := image.Rect(sOrigin.X, sOrigin.Y, sOrigin.X+g.w, sOrigin.Y+g.h)
+				src := newSource(r, pair[0], sb)
+				sb = src.Bounds()
+				c10CaseX(c, r, "big/"+pair[0]+"->"+pair[1], src, sb, pair[1], image.Pt(r.intn(21)-10, r.intn(21)-10), xs[r.intn(len(xs))], r.pick(1, 4, 16, 33), false, r.intn(2) == 0)
+			}
+		}
 		// in place: source == destination
 		for _, dk := range []string{"rgba64", "rgba", "nrgba", "nrgba64"} {
 			g := geoms[3+r.intn(len(geoms)-3)]
